@@ -8,6 +8,7 @@
    C19_mode_verdict whether the full statement is a theorem or refuted for it. *)
 From Coq Require Import ZArith QArith Reals List Bool String.
 From V Require Import Model.BillingAgg Model.BillingAggRun Proofs.BillingAggProofs Proofs.BillingAggRoot.
+From V Require Import Generated.BillingAggGen Proofs.BillingAggGenProofs.
 Import ListNotations.
 Open Scope Z_scope.
 
@@ -222,3 +223,107 @@ Qed.
 Example C19_refuted_witness_is_fine_when_repaired :
   exists out, predict_agg ObsOptional false (ArgStr "monthly") f1_witness = Aggregated 1 out /\ List.length out = 1%nat.
 Proof. eexists. split; vm_compute; reflexivity. Qed.
+
+(* ================================================================================================================
+   The source's own tables (Generated/BillingAggGen.v, rewritten on every run by harness/translate_billing_agg.py from
+   BillingModel.predict and BillingWeightedModel.predict: the if/elif chain on `aggregation`, and which column of df_res is
+   reduced by which function in which order, `observed` only when present).  [parse_arg_by], [aggregate_by] and
+   [predict_agg_by] (Model/BillingAgg.v) interpret such tables.  The statement below is about the interpreted SOURCE
+   tables, for every argument and every frame; the obligations C19_source_* stop checking when the source says
+   something else. *)
+Definition C19_source_statement (chain : arg_chain) (else_raises : err) (t : agg_table) : Prop :=
+  forall (has_obs : bool) (rows : list drow),
+    (forall a k, (a = ArgStr "monthly" /\ k = 1) \/ (a = ArgStr "bimonthly" /\ k = 2) ->
+       exists out, predict_agg_by chain else_raises t has_obs a rows = Some (Aggregated k out) /\
+                   one_row_per_period k rows out /\ group_values k rows out /\ totals_conserved rows out) /\
+    (forall a, ~ documented a -> exists e, predict_agg_by chain else_raises t has_obs a rows = Some (Rejected e)) /\
+    (forall a, (a = ArgNone \/ exists s, a = ArgStr s /\ lower s = "none"%string) ->
+       predict_agg_by chain else_raises t has_obs a rows = Some (Daily rows)).
+
+(* the tables of the source are the tables the model is written from (closed by computation on the regenerated file) *)
+Theorem C19_source_argument_chain :
+  (gen_arg_chain_billing = model_arg_chain /\ gen_arg_else_billing = ValueErr) /\
+  (gen_arg_chain_weighted = model_arg_chain /\ gen_arg_else_weighted = ValueErr).
+Proof. exact (conj source_arg_chain_billing source_arg_chain_weighted). Qed.
+Print Assumptions C19_source_argument_chain.
+
+Theorem C19_source_aggregation_table :
+  gen_agg_table_billing = model_agg_table /\ gen_agg_table_weighted = model_agg_table.
+Proof. exact (conj source_agg_table_billing source_agg_table_weighted). Qed.
+Print Assumptions C19_source_aggregation_table.
+
+(* for every argument: the source's chain decides exactly as the model's parser *)
+Theorem C19_source_parse_is_model_parse : forall a,
+  parse_arg_by gen_arg_chain_billing gen_arg_else_billing a = Some (parse_arg a) /\
+  parse_arg_by gen_arg_chain_weighted gen_arg_else_weighted a = Some (parse_arg a).
+Proof. intros a. exact (conj (source_parse_billing a) (source_parse_weighted a)). Qed.
+Print Assumptions C19_source_parse_is_model_parse.
+
+(* for every frame: reducing the columns as the source's table says gives exactly the model's aggregate *)
+Theorem C19_source_aggregate_is_model_aggregate : forall k rows,
+  aggregate_by gen_agg_table_billing k rows = Some (aggregate k rows) /\
+  aggregate_by gen_agg_table_weighted k rows = Some (aggregate k rows).
+Proof. intros k rows. exact (conj (source_aggregate_billing k rows) (source_aggregate_weighted k rows)). Qed.
+Print Assumptions C19_source_aggregate_is_model_aggregate.
+
+Lemma source_statement_from_predict : forall chain e t,
+  (forall has_obs a rows, predict_agg_by chain e t has_obs a rows = Some (predict_agg ObsOptional has_obs a rows)) ->
+  C19_source_statement chain e t.
+Proof.
+  intros chain e t H has_obs rows. destruct (C19_statement_repaired has_obs rows) as [S1 S2]. repeat split.
+  - intros a k Hk. destruct (S1 a k Hk) as [out [E R]]. exists out. rewrite H, E. split; [reflexivity | exact R].
+  - intros a Ha. destruct (S2 a Ha) as [x E]. exists x. rewrite H, E. reflexivity.
+  - intros a Ha. rewrite H, (C19_none_returns_daily_frame ObsOptional has_obs a rows Ha). reflexivity.
+Qed.
+
+(* the full statement, for the tables read from the source of the two classes *)
+Theorem C19_source_statement_billing :
+  C19_source_statement gen_arg_chain_billing gen_arg_else_billing gen_agg_table_billing.
+Proof. exact (source_statement_from_predict _ _ _ source_predict_billing). Qed.
+Print Assumptions C19_source_statement_billing.
+
+Theorem C19_source_statement_weighted :
+  C19_source_statement gen_arg_chain_weighted gen_arg_else_weighted gen_agg_table_weighted.
+Proof. exact (source_statement_from_predict _ _ _ source_predict_weighted). Qed.
+Print Assumptions C19_source_statement_weighted.
+
+(* the treatment of a missing observed column, read from the source, is the one for which C19_statement is a theorem *)
+Theorem C19_source_obs_mode :
+  table_obs_mode gen_agg_table_billing = ObsOptional /\ table_obs_mode gen_agg_table_weighted = ObsOptional /\
+  C19_statement (table_obs_mode gen_agg_table_billing).
+Proof.
+  rewrite source_agg_table_billing, source_agg_table_weighted.
+  split; [reflexivity | split; [reflexivity | exact C19_statement_repaired]].
+Qed.
+Print Assumptions C19_source_obs_mode.
+
+(* ---- non-vacuity, and what the obligations exclude ---- *)
+Example C19_source_tables_run :
+  aggregate_by gen_agg_table_billing 1 ex_rows = Some (aggregate 1 ex_rows) /\
+  List.length (aggregate 1 ex_rows) = 4%nat /\
+  predict_agg_by gen_arg_chain_billing gen_arg_else_billing gen_agg_table_billing false (ArgStr "bimonthly") ex_rows
+  = Some (Aggregated 2 (aggregate 2 ex_rows)) /\
+  predict_agg_by gen_arg_chain_weighted gen_arg_else_weighted gen_agg_table_weighted true (ArgStr "quarterly") ex_rows
+  = Some (Rejected ValueErr).
+Proof. vm_compute. repeat split. Qed.
+
+(* tables a careless edit could produce are NOT harmless: each of them is refuted as a replacement of the source's table *)
+Definition table_with (c : string) (f : aggfn) : agg_table :=
+  map (fun e => if String.eqb (fst (fst e)) c then (c, f, snd e) else e) model_agg_table.
+Example C19_observed_by_mean_refuted :          (* seeded: observed aggregated by mean *)
+  exists out, aggregate_by (table_with "observed" FMean) 1 ex_rows = Some out /\ ~ totals_conserved ex_rows out.
+Proof. eexists. split; [vm_compute; reflexivity|]. intros [H _]. vm_compute in H. discriminate. Qed.
+Example C19_uncertainty_by_sum_refuted :        (* seeded: uncertainty by plain sum: (sum u)^2 is not sum u^2 *)
+  exists out, aggregate_by (table_with "predicted_unc" FSum) 2 ex_rows = Some out /\
+              ~ (qsum (map (fun o => a_uncsq o * a_uncsq o) out) == sumsq (map d_unc ex_rows))%Q.
+Proof. eexists. split; [vm_compute; reflexivity|]. intros H. vm_compute in H. discriminate. Qed.
+Example C19_quarterly_chain_refuted :           (* seeded: "quarterly" accepted *)
+  exists o, parse_arg_by (model_arg_chain ++ [(TEq "quarterly", RFreq "2MS")]) ValueErr (ArgStr "quarterly") = Some o /\
+            o <> parse_arg (ArgStr "quarterly").
+Proof. eexists. split; [vm_compute; reflexivity | discriminate]. Qed.
+Example C19_month_end_rule_outside_model :      (* seeded: "2MS" -> "2ME": no calendar-period meaning in this model *)
+  parse_arg_by [(TEq "bimonthly", RFreq "2ME")] ValueErr (ArgStr "bimonthly") = None.
+Proof. reflexivity. Qed.
+Example C19_other_reducer_refused :
+  aggregate_by (table_with "observed" FOther) 1 ex_rows = None.
+Proof. vm_compute. reflexivity. Qed.
